@@ -838,7 +838,8 @@ pub(crate) fn merge_trees(
     impl Eq for SortedNode {}
     impl Ord for SortedNode {
         fn cmp(&self, other: &Self) -> Ordering {
-            self.0.name.cmp(&other.0.name).reverse()
+            // trees are sorted by the real (unescaped) node names, not by their escaped form
+            self.0.name().cmp(&other.0.name()).reverse()
         }
     }
 
